@@ -40,10 +40,15 @@ def run_history(ops):
     d = tempfile.mkdtemp(prefix="vh_store_")
     trace = []
     try:
-        with h5py.File(os.path.join(d, "store.h5"), "a") as f:
+        path = os.path.join(d, "store.h5")
+        f = h5py.File(path, "a")
+        try:
             for op in ops:
                 if op[0] == "open":
-                    _, prefix, cfg = op
+                    prefix, cfg = op[1], op[2]
+                    mode = op[3] if len(op) > 3 else "a"
+                    if mode == "r":            # the store re-opened through a file handle opened for reading only (a plotting / summary script)
+                        f.close(); f = h5py.File(path, "r")
                     before = group_digest(f, prefix)
                     lab = labels(f, prefix)
                     try:
@@ -57,7 +62,9 @@ def run_history(ops):
                     except Exception as e:   # noqa
                         out = "other:" + type(e).__name__
                     trace.append({"op": "open", "prefix": prefix, "outcome": out, "before": before, "after": group_digest(f, prefix),
-                                  "labels_before": lab})
+                                  "labels_before": lab, "mode": mode})
+                    if mode == "r":
+                        f.close(); f = h5py.File(path, "a")
                 else:
                     _, prefix, v = op
                     if prefix in f and "_LEFT" in f[prefix]:
@@ -65,9 +72,19 @@ def run_history(ops):
                         g["_LEFT"][...] = float(v)
                         g["_RIGHT"][...] = float(v) + 0.5
                         g["_INTRA"][...] = float(v) + 0.25
-                        g["_BITMAP"][...] = bool(v % 2)
+                        if v % 3 == 2:
+                            # a writer that has marked only part of what it stored (stopped between storing a batch and marking it)
+                            bm = np.zeros(g["_BITMAP"].shape, dtype=bool)
+                            bm.reshape(-1)[::2] = True
+                            if bm.all() or not bm.any():
+                                bm = np.ones(g["_BITMAP"].shape, dtype=bool)
+                            g["_BITMAP"][...] = bm
+                        else:
+                            g["_BITMAP"][...] = bool(v % 2)
                     trace.append({"op": "write", "prefix": prefix, "v": v})
             final = {p: labels(f, p) for p in sorted(set(o[1] for o in ops))}
+        finally:
+            f.close()
         return {"trace": trace, "final": final}
     finally:
         shutil.rmtree(d, ignore_errors=True)
